@@ -145,18 +145,18 @@ Section NP.
       apply bind_not_panic; [apply loop_np|]. intros subs _. np.
   Qed.
   (* ---- W3C ---- *)
-  Lemma find_unrevealed_np R cx name q nr cs : forall i, find_unrevealed cfg R cx name q nr i cs <> RPanic.
+  Lemma find_unrevealed_np strict R cx name q nr cs : forall i, find_unrevealed cfg strict R cx name q nr i cs <> RPanic.
   Proof.
     induction cs as [|[c [id sp]] r IH]; intros i; cbn [find_unrevealed]; [discriminate|].
     repeat first [ apply IH | np_step ].
   Qed.
   Lemma check_attribute_np R cx cs name q nr : check_attribute cfg R cx cs name q nr <> RPanic.
-  Proof. unfold check_attribute. destruct (find_revealed _ _ _ _ _ _ _ _); [discriminate|apply find_unrevealed_np]. Qed.
-  Lemma check_predicate_np R cx pi cs : forall i, check_predicate cfg R cx pi i cs <> RPanic.
   Proof.
-    induction cs as [|[c [id sp]] r IH]; intros i; cbn [check_predicate]; [discriminate|].
-    repeat first [ apply IH | np_step ].
+    unfold check_attribute.
+    repeat first [ apply find_unrevealed_np | np_step ].
   Qed.
+  Lemma check_predicate_np R cx pi cs : check_predicate cfg R cx pi cs <> RPanic.
+  Proof. unfold check_predicate. np. Qed.
   Lemma check_request_data_np R cx cs : check_request_data cfg R cx cs <> RPanic.
   Proof.
     unfold check_request_data.
